@@ -59,4 +59,28 @@ def genFormatIntAlpha (value : Int) : Except Err Text :=
       | .ok r' => liftErr (format_int_alpha_post r')
   else .error .assertion
 
+/-! ### `PageLabels._format_page_label` from the translated if/elif chain -/
+
+def applyNumeral : PyNumeral → Int → Except Err Text
+  | .str, v => .ok (decimal v)
+  | .roman, v => genFormatIntRoman v
+  | .alpha, v => genFormatIntAlpha v
+
+/-- The first entry of the chain whose name is the style decides; `None` and unknown styles get the
+translated constant labels. -/
+def genFormatPageLabel (value : Int) (style : Option Bytes) : Except Err Text :=
+  match style with
+  | none => .ok format_page_label_none
+  | some s =>
+    match format_page_label_chain.find? (fun e => s == e.1) with
+    | some (_, f, up) => (applyNumeral f value).map (fun t => if up then upper t else t)
+    | none => .ok format_page_label_else
+
+/-- One range of `PageLabels.labels` that is not the last one, from the translated
+`label_dict.get("St", …)`, `label_dict.get("P", …)`, `range_length = …`, `values = range(…)`:
+the labels of the range starting at page `start`, the next one starting at `end_`. -/
+def genRangeLabels (d : LabelDict) (start end_ : Int) : List (Except Err Text) :=
+  (labels_values (d.st.getD labels_default_St) (labels_range_length start end_)).map (fun value =>
+    (genFormatPageLabel value d.style).map (fun l => decodeText (d.pfx.getD labels_default_P) ++ l))
+
 end PdfVerif.LabelsGen
